@@ -241,7 +241,7 @@ def generic_replay(module, rp):
     for j in module.jobs('thorough') + module.jobs('quick'):
         if j[0] == rp['job']:
             p = j[2]
-            cfg = Config(p['n'], p['hard'], p['soft'], p['w'], prior=p.get('prior'))
+            cfg = Config(p['n'], p['hard'], p['soft'], p['w'], prior=p.get('prior'), shared=p.get('shared', False))
             spec_confirm = module.CONFIRM[rp['label']]
             kw = module.replay_kwargs(inp.get('extra') or {}) if hasattr(module, 'replay_kwargs') else {}
             r = run_trace(cfg, inp['trace'], inp['kind_codes'], **kw)
